@@ -6,7 +6,7 @@ import warnings
 
 from hypothesis import strategies as st
 
-from .. import convs, simnet
+from .. import convs, refpdu, simnet
 from ..common import Violation, HarnessError, hyp_search, parallel, lib_frame
 
 LEVEL = 'exploration'
@@ -160,6 +160,8 @@ def run_two_associations(ctx, name, role, steps, base, others):
                 continue
             cut = a + (b - a) // 2
             oname = others[(bi + pi) % len(others)]
+            if name == 'acc-fragmented-command':
+                oname = name        # the other association is receiving a fragmented command set at the same time
             orole, osteps = convs.corpus()[oname]
             obase = observe(orole, osteps, None)
             ocuts = {obi: [c for c in (3, on // 2, on - 1) if 0 < c < on] for obi, on, _ in burst_info(osteps)}
@@ -224,6 +226,61 @@ def run_early_prefix(ctx, name, role, steps, base):
                 ctx.fail(v.key.replace('C03:', 'C03:early-prefix:', 1), v.what, v.case)
 
 
+def run_race(ctx, name, role, steps):
+    """A peer PDU arrives WHILE the local user's multi-fragment message is going out (its bytes are there at the
+    provider's next look at the socket).  Where the transport happened to cut that PDU must not matter: every
+    single cut is compared with the uncut arrival, both racing the send."""
+    for k, st_ in enumerate(steps):
+        if st_[0] != 'user' or 'msg' not in st_[1] or len(st_[1]['msg']) < 3:
+            continue
+        if k + 1 >= len(steps) or steps[k + 1][0] != 'burst':
+            continue
+        stream = b''.join(steps[k + 1][1])
+
+        def script(cut, head_first=False):
+            actions = []
+            for j, s2 in enumerate(steps):
+                if j == k and head_first:
+                    # the head of the PDU was already there before the local user started sending
+                    actions.append({'k': 'seg', 'data': stream[:cut], 'eager': False})
+                if s2[0] == 'burst':
+                    if j == k + 1:
+                        parts = [stream] if cut is None else [stream[cut:]] if head_first else [stream[:cut], stream[cut:]]
+                        actions += [{'k': 'seg', 'data': p_, 'eager': True} for p_ in parts]
+                    else:
+                        actions += [{'k': 'seg', 'data': p_, 'eager': False} for p_ in s2[1]]
+                elif s2[0] == 'user':
+                    actions.append({'k': 'user', 'prim': convs.user_prim(s2[1])})
+                else:
+                    actions.append({'k': 'close', 'eager': False})
+            return actions
+        whole = observe_actions(role, script(None))
+        for cut, head_first in [(c_, h_) for c_ in range(1, len(stream)) for h_ in (False, True)]:
+            case = {'conv': name, 'race_cut': cut, 'after_step': k, 'head_first': head_first}
+            ctx.case((name, 'race', k, cut, head_first), True, labels=['cut-while-sending', 'conv=' + name], sample=case)
+            got = observe_actions(role, script(cut, head_first))
+            try:
+                # what is indicated and how it ends must be identical; how many fragments had gone out before the
+                # peer's PDU was complete may differ by scheduling - but a PDU that is complete at the first look is
+                # recognised no later than one that is completed one read later, and at most one fragment goes out
+                # per additional read
+                label = name + ' (peer PDU cut at %d arriving while a %d-fragment message goes out)' % (cut, len(st_[1]['msg']))
+                compare(label, dict(whole, wire=b''), dict(got, wire=b''), case)
+                n_whole = len([p_ for p_ in refpdu.parse_stream(whole['wire']) if p_['t'] == 4])
+                n_cut = len([p_ for p_ in refpdu.parse_stream(got['wire']) if p_['t'] == 4])
+                if not n_whole <= n_cut <= n_whole + 1:
+                    raise Violation('C03:race:fragments-sent', '%s: %d fragments went out when the PDU arrived whole, %d when it '
+                                    'arrived in two pieces' % (label, n_whole, n_cut), case)
+                rest_w = [p_['t'] for p_ in refpdu.parse_stream(whole['wire']) if p_['t'] != 4]
+                rest_c = [p_['t'] for p_ in refpdu.parse_stream(got['wire']) if p_['t'] != 4]
+                if rest_w != rest_c:
+                    raise Violation('C03:race:wire', '%s: other PDUs written %r vs %r' % (label, rest_c, rest_w), case)
+            except refpdu.RefError as exc:
+                ctx.fail('C03:race:wire-malformed', '%s: %s' % (name, exc), case)
+            except Violation as v:
+                ctx.fail(v.key.replace('C03:', 'C03:race:', 1) if not v.key.startswith('C03:race') else v.key, v.what, v.case)
+
+
 def run_conv(ctx, job):
     warnings.simplefilter('ignore')
     name = job['conv']
@@ -237,6 +294,7 @@ def run_conv(ctx, job):
     run_read_sizes(ctx, name, role, steps, base)
     run_two_associations(ctx, name, role, steps, base, sorted(convs.corpus()))
     run_early_prefix(ctx, name, role, steps, base)
+    run_race(ctx, name, role, steps)
     # whole bursts at once / one-byte dribble
     for fe, b2b in MODES:
         run_variant(ctx, name, role, steps, base, {}, fe, b2b, 'burst-at-once')
@@ -404,7 +462,7 @@ def run(ctx):
     warnings.simplefilter('ignore')
     corpus = convs.corpus()
     ctx.rule = ('for each of %d conversations (both roles): whole-burst, one-byte dribble, every single cut '
-                'offset, pairs of cut offsets, Hypothesis k-cuts (k<=8); another association carried by a second provider of the same process between the two halves of each PDU; the first bytes of a PDU arriving before the local user action that precedes it; the read size of the provider set to exactly the length (a half, a third) of each PDU of the conversation; Hypothesis-generated conversations (the random walks of C05) re-cut at random offsets; two long pipelined streams (> 64 KiB, incl. 30 kB PDUs) in chunks of 100..65536 bytes; x first segment already waiting or not x '
+                'offset, pairs of cut offsets, Hypothesis k-cuts (k<=8); another association carried by a second provider of the same process between the two halves of each PDU; the first bytes of a PDU arriving before the local user action that precedes it; a peer PDU cut at every offset while it races a multi-fragment message the local user is sending; the read size of the provider set to exactly the length (a half, a third) of each PDU of the conversation; Hypothesis-generated conversations (the random walks of C05) re-cut at random offsets; two long pipelined streams (> 64 KiB, incl. 30 kB PDUs) in chunks of 100..65536 bytes; x first segment already waiting or not x '
                 'segments back-to-back or each after quiescence; cuts are applied inside the byte string the peer '
                 'sends between two local actions; compared with one-PDU-per-segment delivery; non-trivial = a cut '
                 'falls strictly inside a PDU or >=2 PDUs share a segment; distinct by (conversation, cuts, modes)'
@@ -447,6 +505,13 @@ def replay(case):
         from ..common import Ctx
         sub = Ctx('C03', 'quick', 1)
         run_two_associations(sub, case['conv'], role, steps, base, sorted(convs.corpus()))
+        for key, ent in sorted(sub.failures.items()):
+            raise Violation(key, ent['what'], ent['case'])
+        return
+    if 'race_cut' in case:
+        from ..common import Ctx
+        sub = Ctx('C03', 'quick', 1)
+        run_race(sub, case['conv'], role, steps)
         for key, ent in sorted(sub.failures.items()):
             raise Violation(key, ent['what'], ent['case'])
         return
